@@ -12,6 +12,7 @@ import (
 	"seehuhn.de/go/sfnt/cmap"
 	"seehuhn.de/go/sfnt/glyf"
 	"seehuhn.de/go/sfnt/glyph"
+	"seehuhn.de/go/sfnt/opentype/classdef"
 	"seehuhn.de/go/sfnt/opentype/coverage"
 	"seehuhn.de/go/sfnt/opentype/gtab"
 	"seehuhn.de/go/sfnt/verifharness/vlib"
@@ -219,6 +220,31 @@ func adjSx(a *gtab.GposValueRecord) (vlib.Sx, bool) {
 
 // lookupsSx renders a lookup list in the model's syntax; ok is false when the
 // list contains something the model has no representation for.
+func actsSx(aa []gtab.SeqLookup) vlib.Sx {
+	l := vlib.List{}
+	for _, a := range aa {
+		l = append(l, vlib.L(vlib.Int(int(a.LookupListIndex)), vlib.Int(int(a.SequenceIndex))))
+	}
+	return l
+}
+
+// classesSx renders a class definition table as the glyph lists of the
+// classes 1, 2, ...; ok is false if the table has explicit class-0 entries.
+func classesSx(t classdef.Table) (vlib.Sx, bool) {
+	ok := true
+	for _, c := range t {
+		if c == 0 {
+			ok = false
+		}
+	}
+	l := vlib.List{}
+	gg := t.Glyphs()
+	for i := 1; i < len(gg); i++ {
+		l = append(l, gidsSx(gg[i]))
+	}
+	return l, ok
+}
+
 func lookupsSx(ll gtab.LookupList) (vlib.Sx, bool) {
 	ok := true
 	out := vlib.List{}
@@ -226,6 +252,38 @@ func lookupsSx(ll gtab.LookupList) (vlib.Sx, bool) {
 		subs := vlib.List{}
 		for _, s := range l.Subtables {
 			switch t := s.(type) {
+			case *gtab.SeqContext1:
+				cov, o := covList(t.Cov)
+				ok = ok && o
+				rules := vlib.List{}
+				for _, rs := range t.Rules {
+					rl := vlib.List{}
+					for _, r := range rs {
+						rl = append(rl, vlib.L(gidsSx(r.Input), actsSx(r.Actions)))
+					}
+					rules = append(rules, rl)
+				}
+				subs = append(subs, vlib.L(vlib.Atom("c1"), gidsSx(cov), rules))
+			case *gtab.SeqContext2:
+				cov, o := covList(t.Cov)
+				ok = ok && o
+				cls, o2 := classesSx(t.Input)
+				ok = ok && o2
+				rules := vlib.List{}
+				for _, rs := range t.Rules {
+					rl := vlib.List{}
+					for _, r := range rs {
+						rl = append(rl, vlib.L(vlib.Ints(r.Input), actsSx(r.Actions)))
+					}
+					rules = append(rules, rl)
+				}
+				subs = append(subs, vlib.L(vlib.Atom("c2"), gidsSx(cov), cls, rules))
+			case *gtab.SeqContext3:
+				sets := vlib.List{}
+				for _, set := range t.Input {
+					sets = append(sets, gidsSx(set.Glyphs()))
+				}
+				subs = append(subs, vlib.L(vlib.Atom("c3"), sets, actsSx(t.Actions)))
 			case *gtab.Gsub1_1:
 				subs = append(subs, vlib.L(vlib.Atom("g11"), gidsSx(t.Cov.Glyphs()), vlib.Int(int(t.Delta))))
 			case *gtab.Gsub1_2:
@@ -343,10 +401,21 @@ func lookupsFromSx(x vlib.Sx) (gtab.LookupList, error) {
 		lt := &gtab.LookupTable{Meta: &gtab.LookupMetaInfo{LookupType: uint16(ty), LookupFlags: gtab.LookupFlags(fl)}}
 		for _, sx := range subs {
 			sp, err := vlib.AsList(sx)
-			if err != nil || len(sp) != 3 {
+			if err != nil || len(sp) < 3 {
 				return nil, fmt.Errorf("bad subtable")
 			}
 			kind, _ := vlib.AsAtom(sp[0])
+			if kind == "c1" || kind == "c2" || kind == "c3" {
+				st, err := ctxFromSx(kind, sp)
+				if err != nil {
+					return nil, err
+				}
+				lt.Subtables = append(lt.Subtables, st)
+				continue
+			}
+			if len(sp) != 3 {
+				return nil, fmt.Errorf("bad subtable")
+			}
 			cov, err := gidsFromSx(sp[1])
 			if err != nil {
 				return nil, err
@@ -443,6 +512,147 @@ func lookupsFromSx(x vlib.Sx) (gtab.LookupList, error) {
 		out = append(out, lt)
 	}
 	return out, nil
+}
+
+func actsFromSx(x vlib.Sx) ([]gtab.SeqLookup, error) {
+	l, err := vlib.AsList(x)
+	if err != nil {
+		return nil, err
+	}
+	var out []gtab.SeqLookup
+	for _, a := range l {
+		p, err := vlib.AsInts(a)
+		if err != nil || len(p) != 2 {
+			return nil, fmt.Errorf("bad action")
+		}
+		out = append(out, gtab.SeqLookup{LookupListIndex: gtab.LookupIndex(p[0]), SequenceIndex: uint16(p[1])})
+	}
+	return out, nil
+}
+
+func setFromList(l []glyph.ID) coverage.Set {
+	s := coverage.Set{}
+	for _, g := range l {
+		s[g] = true
+	}
+	return s
+}
+
+func classesFromSx(x vlib.Sx) (classdef.Table, error) {
+	l, err := vlib.AsList(x)
+	if err != nil {
+		return nil, err
+	}
+	t := classdef.Table{}
+	for i, c := range l {
+		gg, err := gidsFromSx(c)
+		if err != nil {
+			return nil, err
+		}
+		for _, g := range gg {
+			t[g] = uint16(i + 1)
+		}
+	}
+	return t, nil
+}
+
+func ctxFromSx(kind string, sp []vlib.Sx) (gtab.Subtable, error) {
+	switch kind {
+	case "c1", "c2":
+		if (kind == "c1" && len(sp) != 3) || (kind == "c2" && len(sp) != 4) {
+			return nil, fmt.Errorf("bad context subtable")
+		}
+		cov, err := gidsFromSx(sp[1])
+		if err != nil {
+			return nil, err
+		}
+		rl, err := vlib.AsList(sp[len(sp)-1])
+		if err != nil {
+			return nil, err
+		}
+		if kind == "c1" {
+			st := &gtab.SeqContext1{Cov: covFromList(cov)}
+			for _, rs := range rl {
+				rr, err := vlib.AsList(rs)
+				if err != nil {
+					return nil, err
+				}
+				var rules []*gtab.SeqRule
+				for _, r := range rr {
+					p, err := vlib.AsList(r)
+					if err != nil || len(p) != 2 {
+						return nil, fmt.Errorf("bad rule")
+					}
+					in, err := gidsFromSx(p[0])
+					if err != nil {
+						return nil, err
+					}
+					aa, err := actsFromSx(p[1])
+					if err != nil {
+						return nil, err
+					}
+					rules = append(rules, &gtab.SeqRule{Input: in, Actions: aa})
+				}
+				st.Rules = append(st.Rules, rules)
+			}
+			return st, nil
+		}
+		cls, err := classesFromSx(sp[2])
+		if err != nil {
+			return nil, err
+		}
+		st := &gtab.SeqContext2{Cov: covFromList(cov), Input: cls}
+		for _, rs := range rl {
+			rr, err := vlib.AsList(rs)
+			if err != nil {
+				return nil, err
+			}
+			var rules []*gtab.ClassSeqRule
+			for _, r := range rr {
+				p, err := vlib.AsList(r)
+				if err != nil || len(p) != 2 {
+					return nil, fmt.Errorf("bad rule")
+				}
+				ii, err := vlib.AsInts(p[0])
+				if err != nil {
+					return nil, err
+				}
+				in := make([]uint16, len(ii))
+				for i, v := range ii {
+					in[i] = uint16(v)
+				}
+				aa, err := actsFromSx(p[1])
+				if err != nil {
+					return nil, err
+				}
+				rules = append(rules, &gtab.ClassSeqRule{Input: in, Actions: aa})
+			}
+			st.Rules = append(st.Rules, rules)
+		}
+		return st, nil
+	case "c3":
+		if len(sp) != 3 {
+			return nil, fmt.Errorf("bad context subtable")
+		}
+		sl, err := vlib.AsList(sp[1])
+		if err != nil {
+			return nil, err
+		}
+		st := &gtab.SeqContext3{}
+		for _, s := range sl {
+			gg, err := gidsFromSx(s)
+			if err != nil {
+				return nil, err
+			}
+			st.Input = append(st.Input, setFromList(gg))
+		}
+		st.Actions, err = actsFromSx(sp[2])
+		if err != nil {
+			return nil, err
+		}
+		return st, nil
+	}
+	return nil, fmt.Errorf("unknown context subtable %q", kind)
 }
 
 // ---- canonical text of arbitrary lookup structures (oracle side) ----
